@@ -218,6 +218,47 @@ def o_single_and_identical(ctx):
                                              sum((d.value for d in vals.determinants[k] if d.label == lab), 0.0)))
 
 
+def _gkey(g):
+    a = g.atom
+    return (g.type, a.name, a.res_num, a.chain_id, a.icode)
+
+
+def mk_pipeline_single(name, params=None, copies=1):
+    """whole pipeline on a single-conformation file (copies=1) or on K identical MODELs: the reported average is exactly
+    the (common) conformation -- every group once, same pKa, desolvation and determinants partner by partner (partners
+    told apart by identity, not by label: two copies of a ligand or two ions of one kind in a chain share their labels)"""
+    def body(ctx):
+        from . import micro as M
+        txt = M.text(name)
+        if copies > 1:
+            txt = M.models(*([txt] * copies))
+        k = ctx.int('shift_thousandths', 0, 2509)
+        t = k / 1000.0 if ctx.native else k / 1000
+
+        def tr(a):
+            a.x = a.x + t
+        mol = M.run(txt, transform=tr, params=params)
+        first = mol.conformations[mol.conformation_names[0]]
+        avr = mol.conformations['AVR']
+        want = [g for g in first.groups if g.use_in_calculations()]
+        got = {}
+        for g in avr.groups:
+            got.setdefault(_gkey(g), []).append(g)
+        ctx.claim('every-group-once', sorted(_gkey(g) for g in want) == sorted(k_ for k_, v in got.items() for _ in v),
+                  detail='missing %r, extra %r' % (sorted(set(map(_gkey, want)) - set(got)), sorted(set(got) - set(map(_gkey, want)))))
+        for g in want:
+            for a in got.get(_gkey(g), [])[:1]:
+                ctx.claim('pka-is-the-conformation-value', eq(a.pka_value, g.pka_value), detail='%s %r vs %r' % (g.label, a.pka_value, g.pka_value))
+                ctx.claim('desolvation-is-the-conformation-value', And(eq(a.energy_volume, g.energy_volume), eq(a.buried, g.buried)))
+                for kind in KINDS:
+                    dk = lambda d: (d.label, d.group.atom.name, d.group.atom.res_num, d.group.atom.chain_id)
+                    da = sorted(((dk(d), d.value) for d in a.determinants[kind]), key=lambda x: x[0])
+                    dg = sorted(((dk(d), d.value) for d in g.determinants[kind]), key=lambda x: x[0])
+                    ctx.claim('determinants-partner-by-partner:' + kind, [x[0] for x in da] == [x[0] for x in dg] and all(bool(eq(x[1], y[1])) for x, y in zip(da, dg)),
+                              detail='%s: average %r, conformation %r' % (g.label, da, dg))
+    return body
+
+
 def obligations(tier):
     I = 'propka/input.py:'
     M = 'propka/molecular_container.py:MolecularContainer.'
@@ -250,6 +291,16 @@ def obligations(tier):
     obs.append(Obligation('O4-single-and-identical', o_single_and_identical, code=[M + 'average_of_conformations'],
                           bounds='K in {1,2,3} identical conformations, determinant pattern (2,1,1), symbolic values',
                           claim_doc='the average reproduces the (common) conformation'))
+    from . import micro as MM
+    fxs = [('complex_MTX2', MM.BURIED, 1), ('pair_ASP_ARG', MM.BURIED, 2)] if tier == 'quick' else [('complex_MTX2', MM.BURIED, 1), ('complex_MTX2', None, 2), ('pair_ASP_ARG', MM.BURIED, 2),
+                                                                                                        ('complex_ZN', MM.BURIED, 1), ('pep8', MM.COUPLED, 3), ('lig_KNI', None, 1)]
+    for name, params, copies in fxs:
+        obs.append(Obligation('O5-pipeline-average-of-identical[%s,%d conformation%s%s]' % (name, copies, 's' if copies > 1 else '', ',buried' if params else ''), mk_pipeline_single(name, params, copies),
+                              code=[M + 'average_of_conformations', 'propka/group.py:Group.__iadd__', 'propka/group.py:Group.add_determinant', 'propka/group.py:Group.__eq__',
+                                    'propka/conformation_container.py:ConformationContainer.find_group', 'propka/run.py:single (whole pipeline)'],
+                              bounds='%s as %d identical conformation(s)%s under a symbolic grid shift t in [0,2.509]' % (name, copies, ' with Nmin/Nmax lowered to 6/30' if params else ''),
+                              claim_doc='the average reports every group of the conformation once with its pKa, desolvation and determinants, partner by partner',
+                              max_paths=5000, wall_s=170 if tier == 'quick' else 1200, split_input=('shift_thousandths', 8) if name.startswith('complex') else None))
     if tier == 'thorough':
         obs.append(Obligation('O2-top-up[3 conformations]', mk_topup(3), code=obs[-3].code, bounds='3 conformations x 5 identities',
                               claim_doc=obs[-3].claim_doc, max_paths=2000000, shards=16, wall_s=1500))
